@@ -1,5 +1,6 @@
 import AvroModel.Lemmas.SpecRoundTrip
 import AvroModel.Lemmas.Varint
+import AvroModel.Theorems.C04
 /-
 C03 — decoder conformance (the parts proved so far).
 
